@@ -21,6 +21,10 @@ REQUIRED_THEOREMS = [
     "geo_load_save_attrs_partial", "geo_attrs_come_back", "geo_attrs_nothing_else", "geo_reads_reference_mixed_cells",
     "geo_type_rows_bridge", "geo_byte_size_bridge", "geo_to_string_bridge", "obj_rows_bridge",
     "geo_typeOf_in_table", "geo_header_from_table", "obj_unlisted_prefix_ignored", "obj_listed_prefix_target",
+    # round 3: file level geogram, save histories (translated guards of save()), second generation, representation independence
+    "geo_file_load_save", "geo_parse_print", "save_guards_bridge", "save_ignore_from_table", "save_preserves_mesh", "save_history",
+    "save_history_clearShared_refuted", "second_generation", "load_save_any_representation", "same_values_same_load",
+    "stl_reader_soup", "stl_merge_keeps_soup",
 ]
 TRUSTED = [
     "Lean 4.33.0 kernel; axioms ⊆ {propext, Classical.choice, Quot.sound}",
@@ -33,7 +37,11 @@ TRUSTED = [
 ]
 ASSUMPTIONS = ["agreement model/implementation is established on the meshes explored in this run only",
                "coordinates are finite doubles (NaN/inf not generated); STL coordinates stay inside the binary32 range"]
-RULE = ("meshes: point clouds, polylines, triangle/quad/mixed/polygon surfaces (manifold generators of vlib/gen/mesh.py), tet and hex "
+RULE = ("round 3 adds: histories on one mesh object (save, save again, save to a second format vs a fresh copy, load->save->load), "
+        "by-value snapshots of the mesh before/after every save, input representations (Python int, numpy int64/float32/float64 rows and "
+        "scalars, tuples, Vec; faces/edges as tuples/numpy int32/int64 rows), empty and duplicated inputs, load(dim=) override, attribute "
+        "element types bool/int/float/complex/str incl. vector-valued. "
+        "meshes: point clouds, polylines, triangle/quad/mixed/polygon surfaces (manifold generators of vlib/gen/mesh.py), tet and hex "
         "volumes, declared edges, geogram attributes (bool/int/float, arity 1-3, on vertices/edges/faces/corners/cells), adversarial "
         "doubles; x 7 formats x switches (export_edges_in_obj, complete_edges_from_faces, ignore_elements, re-wrap) x two scenarios "
         "(rt: mouette saves then loads; ref: an independent writer's file is loaded). non-trivial = distinct case whose save and load "
@@ -101,7 +109,7 @@ def hex_grid(rng, nx, ny, nz):
     return V, C
 
 
-def gen_attrs(rng, kinds):
+def gen_attrs(rng, kinds, exotic=False):
     conts = ["vertices"]
     if "E" in kinds: conts.append("edges")
     if "F" in kinds: conts += ["faces", "face_corners"]
@@ -109,6 +117,7 @@ def gen_attrs(rng, kinds):
     attrs = []
     for j in range(rng.randint(1, 4)):
         ty = rng.choice(["bool", "int", "float"])
+        if exotic and j == 0: ty = rng.choice(["complex", "string"])
         ar = rng.choice([1, 1, 2, 3])
         pool = []
         for _ in range(rng.randint(3, 17)):
@@ -116,17 +125,26 @@ def gen_attrs(rng, kinds):
             for _ in range(ar):
                 if ty == "bool": row.append(rng.random() < 0.5)
                 elif ty == "int": row.append(rng.choice([0, 0, 1, -3, 7, 2 ** 31 - 1, 12345, -1]))
+                elif ty == "complex": row.append(str(complex(rng.choice([0, 1, -2.5]), rng.choice([0, 2, 0.5]))))
+                elif ty == "string": row.append(rng.choice(["", "a", "hello", "x_1"]))
                 else: row.append(IO.fhex(rng.choice([0.0, 0.0] + ADVERSARIAL[:12]) if rng.random() < 0.7 else rng.uniform(-5, 5)))
             pool.append(row)
+        if ty == "string": ar = 1
+        pool = [row[:ar] for row in pool]
         attrs.append({"on": rng.choice(conts), "name": f"{ty[0]}a{j}", "type": ty, "arity": ar, "pool": pool})
     return attrs
 
 
 def base_mesh(rng, tier, want=None):
     big = tier != "quick"
-    kind = want or rng.choice(["pc", "poly", "tri", "quad", "mixed", "polygon", "tet", "hex", "tri+edges", "tet+hex", "tet+tri"])
+    kind = want or rng.choice(["pc", "poly", "tri", "quad", "mixed", "polygon", "tet", "hex", "tri+edges", "tet+hex", "tet+tri", "dup", "empty"])
     E, F, C = [], [], []
-    if kind == "pc":
+    if kind == "empty":
+        V = []
+    elif kind == "dup":
+        V = [[0, 0, 0], [1, 0, 0], [1, 1, 0], [0, 1, 0], [2, 0.5, 1]]
+        F = [[0, 1, 2], [0, 1, 2], [0, 2, 3], [2, 1, 4], [0, 2, 3]] if rng.random() < 0.5 else [[0, 1, 2, 3], [0, 1, 2, 3], [2, 1, 4]]
+    elif kind == "pc":
         n = rng.randint(1, 12)
         V = [[G.dy(rng.uniform(-4, 4)) for _ in range(3)] for _ in range(n)]
     elif kind == "poly":
@@ -171,9 +189,23 @@ def base_mesh(rng, tier, want=None):
     return kind, V, E, F, C
 
 
+def _set_rep(rng, case):
+    """hand the same mesh to mouette in another input representation (int / numpy scalars / float32 / tuples / Vec …)"""
+    import numpy as np
+    rep = rng.choice(REPS[1:])
+    V = [[IO.unhex(c) for c in v] for v in case["V"]]
+    if rep in ("int", "npint"):
+        V = [[float(max(-10 ** 6, min(10 ** 6, round(c)))) + 0.0 for c in v] for v in V]
+    elif rep == "f32":
+        V = [[float(np.float32(c)) if abs(c) < 3e38 else 1.5 for c in v] for v in V]
+    case["V"] = hexV(V)
+    case["rep"] = rep
+    case["erep"] = rng.choice(EREPS)
+
+
 def cases(rng, tier):
     n_rt, n_ref = (2400, 1000) if tier == "quick" else (14000, 6000)
-    wants = ["pc", "poly", "tri", "quad", "mixed", "polygon", "tet", "hex", "tri+edges", "tet+hex", "tet+tri"]
+    wants = ["pc", "poly", "tri", "quad", "mixed", "polygon", "tet", "hex", "tri+edges", "tet+hex", "tet+tri", "dup", "empty"]
     # one deterministic sweep kind x format first, then random
     sweep = [(k, f) for k in wants for f in IO.FORMATS]
     for i in range(n_rt):
@@ -195,7 +227,26 @@ def cases(rng, tier):
             elif r < 0.55 and F and not C and fmt in ("obj", "mesh"):
                 case["rewrap"] = 1
         if fmt == "geogram_ascii" and rng.random() < 0.6:
+            case["attrs"] = gen_attrs(rng, ("E" if (E or F or C) else "") + ("F" if (F or C) else "") + ("C" if C else ""),
+                                      exotic=(i >= len(sweep) and rng.random() < 0.12))
+        if i >= len(sweep) and rng.random() < 0.3:
+            _set_rep(rng, case)
+        if i >= len(sweep) and rng.random() < 0.08:
+            case["dim"] = rng.choice([0, 1, 2, 3])
+        yield case
+    # histories on one mesh object: save / save again / save to another format / load and save again
+    n_hist = 260 if tier == "quick" else 1500
+    for i in range(n_hist):
+        kind, V, E, F, C = base_mesh(rng, tier, wants[i % len(wants)] if i < 2 * len(wants) else None)
+        fmt, fmt2 = rng.choice(IO.FORMATS), rng.choice(IO.FORMATS)
+        if rng.random() < 0.3: V = adversarial_coords(rng, V, "stl" if "stl" in (fmt, fmt2) else fmt)
+        case = {"sc": "hist", "fmt": fmt, "fmt2": fmt2, "tag": kind, "V": hexV(V), "E": E, "F": F, "C": C,
+                "cfg": {"ee": 1, "ce": 1}, "ign": [], "rewrap": 0}
+        if rng.random() < 0.3 and fmt in ("obj", "mesh", "geogram_ascii", "off"):
+            case["ign"] = rng.choice([["edges"], ["faces"], ["cells"], ["edges", "faces"], ["faces", "cells"]])
+        if "geogram_ascii" in (fmt, fmt2) and rng.random() < 0.5:
             case["attrs"] = gen_attrs(rng, ("E" if (E or F or C) else "") + ("F" if (F or C) else "") + ("C" if C else ""))
+        if rng.random() < 0.3: _set_rep(rng, case)
         yield case
     styles = {"stl": ["plain", "ascii"]}
     for i in range(n_ref):
@@ -263,6 +314,7 @@ def _dense_attr(attr, n):
         row = [_pyval(x) for x in v] if attr.elemsize > 1 else [_pyval(v)]
         if ty == "float": row = [IO.fhex(x) for x in row]
         elif ty in ("bool", "int"): row = [int(x) for x in row]
+        elif ty == "complex": row = [str(complex(x)) for x in row]
         else: row = [str(x) for x in row]
         rows.append(row)
     return {"type": ty, "arity": int(attr.elemsize), "values": rows}
@@ -293,25 +345,61 @@ def snapshot(m, with_attrs=False):
     return c
 
 
+REPS = ["float", "int", "npint", "f32", "np64", "tuple", "vec", "npscalar"]
+EREPS = ["list", "tuple", "np64", "np32"]
+
+
+def _rep_vertices(V, rep):
+    """the same coordinates handed to mouette in another container / number type (values unchanged)"""
+    import numpy as np
+    X = [[IO.unhex(c) for c in v] for v in V]
+    if rep == "int": return [[int(c) for c in v] for v in X]
+    if rep == "npint": return list(np.array(X, dtype=np.int64).reshape(-1, 3))
+    if rep == "f32": return list(np.array(X, dtype=np.float32).reshape(-1, 3))
+    if rep == "np64": return list(np.array(X, dtype=np.float64).reshape(-1, 3))
+    if rep == "tuple": return [tuple(v) for v in X]
+    if rep == "npscalar": return [[np.float64(c) for c in v] for v in X]
+    if rep == "vec":
+        import mouette as M
+        return [M.Vec(*v) for v in X]
+    return X
+
+
+def _rep_elems(L, rep, edge=False):
+    import numpy as np
+    if rep == "tuple": return [tuple(e) for e in L]
+    if rep == "np64": return [np.array(e, dtype=np.int64) for e in L]
+    if rep == "np32": return [np.array(e, dtype=np.int32) for e in L]
+    return [tuple(e) for e in L] if edge else [list(e) for e in L]
+
+
+PYT = {"bool": bool, "int": int, "float": float, "complex": complex, "string": str}
+
+
+def _attr_value(ty, x):
+    if ty == "float": return IO.unhex(x)
+    if ty == "complex": return complex(x)
+    return PYT[ty](x)
+
+
 def build_mesh(case):
     from mouette.mesh.mesh_data import RawMeshData
     from mouette.mesh.mesh import _instanciate_raw_mesh_data
     r = RawMeshData()
-    r.vertices += [[IO.unhex(c) for c in v] for v in case["V"]]
-    r.edges += [tuple(e) for e in case["E"]]
-    r.faces += [list(f) for f in case["F"]]
-    r.cells += [list(c) for c in case["C"]]
+    r.vertices += _rep_vertices(case["V"], case.get("rep", "float"))
+    er = case.get("erep", "list")
+    r.edges += _rep_elems(case["E"], er if er != "np32" else "np64", edge=True)
+    r.faces += _rep_elems(case["F"], er)
+    r.cells += _rep_elems(case["C"], er if er in ("list", "tuple") else "list")     # numpy rows as cells: C02/C03's open findings
     m = _instanciate_raw_mesh_data(r)
     if case.get("rewrap"):
         m = _instanciate_raw_mesh_data(RawMeshData(m))
-    for a in case.get("attrs", []) if case["sc"] == "rt" else []:
+    for a in case.get("attrs", []) if case["sc"] in ("rt", "hist") else []:
         if not hasattr(m, a["on"]): continue
         cont = getattr(m, a["on"])
-        pyt = {"bool": bool, "int": int, "float": float}[a["type"]]
-        at = cont.create_attribute(a["name"], pyt, a["arity"])
+        at = cont.create_attribute(a["name"], PYT[a["type"]], a["arity"])
         for i in range(len(cont)):
-            row = a["pool"][i % len(a["pool"])]
-            row = [IO.unhex(x) if a["type"] == "float" else pyt(x) for x in row]
+            row = [_attr_value(a["type"], x) for x in a["pool"][i % len(a["pool"])]]
             at[i] = row if a["arity"] > 1 else row[0]
     return m
 
@@ -350,7 +438,7 @@ def _run(case):
             if case["sc"] == "rt":
                 m = build_mesh(case)
                 R["cls0"] = type(m).__name__
-                if fmt == "geogram_ascii" and R["cls0"] == "VolumeMesh" and all(len(c) == 4 for c in m.cells):
+                if fmt == "geogram_ascii" and R["cls0"] == "VolumeMesh":
                     try:
                         m.connectivity._compute_adjacent_cell()     # what save() does first; idempotent
                         adj = m.cell_faces.get_attribute("adjacent_cell")
@@ -400,11 +488,127 @@ def _run(case):
                 R["full"] = snapshot(L)
             except Exception as e:  # noqa
                 R["cls_err"] = _err(e); R["cls_exc"] = f"{type(e).__name__}: {e}"
+            if case.get("dim") is not None and "cls" in R:
+                try:
+                    R["cls_dim"] = CLASSES.index(type(M.mesh.load(path, dim=case["dim"])).__name__)
+                except Exception as e:  # noqa
+                    R["cls_dim_err"] = _err(e)
     finally:
         shutil.rmtree(d, ignore_errors=True)
     _MEMO[key] = R
     if len(_MEMO) > 4000: _MEMO.pop(next(iter(_MEMO)))
     return R
+
+
+def _view(c):
+    """what the caller can see of a mesh, by value (internal attributes excluded)"""
+    return {"vertices": c["V"], "edges": c["E"], "faces": c["F"], "cells": c["C"], "hard_edges": c.get("hard"),
+            "attributes": sorted(([a["on"], a["name"], a["type"], a["arity"], a["values"]] for a in c.get("attrs", [])
+                                  if a["name"] not in INTERNAL_ATTRS), key=lambda t: (t[0], t[1]))}
+
+
+def _loadable(fmt, data):
+    """False for the 0-facet binary STL that makes stl_reader abort the interpreter (open finding C04/stl/no-face)"""
+    return not (fmt == "stl" and data[:5] != b"solid" and len(data) >= 84 and struct.unpack("<I", data[80:84])[0] == 0)
+
+
+def _run_hist(case):
+    """one mesh object used several times: save, save again, save to a second format, and a second generation
+    (load the first file, save it again, load that)."""
+    key = "H" + repr(sorted(case.items(), key=lambda kv: kv[0]))
+    if key in _MEMO: return _MEMO[key]
+    warnings.simplefilter("ignore")
+    import mouette as M
+    H = {}
+    fmt, fmt2 = case["fmt"], case["fmt2"]
+    d = tempfile.mkdtemp(prefix="c04h_")
+    rd = lambda p: open(p, "rb").read()
+    try:
+        with _Config(case.get("cfg", {})):
+            m = build_mesh(case)
+            H["s0"] = _view(snapshot(m, with_attrs=True))
+            ign = set(case["ign"]) if case["ign"] else None
+            p1, p1b, p2, p2f, p3 = (os.path.join(d, n) for n in ("a." + fmt, "a2." + fmt, "b." + fmt2, "bf." + fmt2, "c." + fmt))
+            try:
+                M.mesh.save(m, p1, ignore_elements=ign)
+            except Exception as e:  # noqa
+                H["err1"] = _err(e); _MEMO[key] = H; return H
+            H["s1"] = _view(snapshot(m, with_attrs=True))
+            try:
+                M.mesh.save(m, p1b, ignore_elements=ign)
+                H["same_twice"] = (rd(p1) == rd(p1b)) if os.path.exists(p1) and os.path.exists(p1b) else None
+            except Exception as e:  # noqa
+                H["err1b"] = f"{type(e).__name__}: {e}"
+            # a second format, on the used object and on a fresh one
+            try:
+                M.mesh.save(m, p2)
+                H["s2"] = _view(snapshot(m, with_attrs=True))
+                used = rd(p2) if os.path.exists(p2) else None
+            except Exception as e:  # noqa
+                H["err2"] = f"{type(e).__name__}: {e}"; used = None
+            try:
+                M.mesh.save(build_mesh(case), p2f)
+                fresh = rd(p2f) if os.path.exists(p2f) else None
+            except Exception as e:  # noqa
+                H["err2f"] = f"{type(e).__name__}: {e}"; fresh = None
+            if "err2" in H and "err2f" not in H: H["used_raises"] = H["err2"]
+            elif used is not None and fresh is not None:
+                H["used_eq_fresh"] = (IO.tokenize(fmt2, used) == IO.tokenize(fmt2, fresh))
+            # second generation
+            if os.path.exists(p1) and _loadable(fmt, rd(p1)):
+                try:
+                    c1 = snapshot(M.mesh.load(p1, raw=True), with_attrs=(fmt == "geogram_ascii"))
+                    L1 = M.mesh.load(p1)
+                    M.mesh.save(L1, p3)
+                    if _loadable(fmt, rd(p3)):
+                        c2 = snapshot(M.mesh.load(p3, raw=True), with_attrs=(fmt == "geogram_ascii"))
+                        H["gen"] = (c1, c2)
+                except Exception as e:  # noqa
+                    H["gen_err"] = f"{type(e).__name__}: {e}"
+    finally:
+        shutil.rmtree(d, ignore_errors=True)
+    _MEMO[key] = H
+    return H
+
+
+def _oracle_hist(case):
+    H = _run_hist(case)
+    fmt, fmt2 = case["fmt"], case["fmt2"]
+    out = []
+
+    def add(key, what, detail=""):
+        if not any(f["key"] == key for f in out): out.append({"key": key, "what": what, "detail": detail})
+    if "err1" in H: return out          # a first save that raises is the business of the rt family
+    pre = "C04/save-ignore_elements" if case["ign"] else f"C04/{fmt}"
+    for tag, nm in (("s1", f"save to .{fmt}" + (f" with ignore_elements={sorted(case['ign'])}" if case["ign"] else "")),
+                    ("s2", f"a following save to .{fmt2}")):
+        if tag in H:
+            for fld in ("vertices", "edges", "faces", "cells", "hard_edges", "attributes"):
+                if H[tag][fld] != H["s0"][fld]:
+                    add(f"{pre if tag == 's1' else 'C04/' + fmt2}/save-changes-mesh/{fld}",
+                        f"{nm} changed the {fld} of the mesh object being saved ({str(H['s0'][fld])[:70]} -> {str(H[tag][fld])[:70]})")
+            if H[tag] != H["s0"]: break
+    if "err1b" in H: add(f"C04/{fmt}/second-save-raises", f"saving the same mesh a second time to .{fmt} raised {H['err1b'][:100]}")
+    elif H.get("same_twice") is False: add(f"C04/{fmt}/second-save-differs", f"saving the same mesh twice to .{fmt} wrote two different files")
+    clean1 = H.get("s1") == H["s0"]
+    if clean1:      # otherwise the difference below is a consequence of the change already reported
+        if "used_raises" in H:
+            add(f"C04/{fmt2}/save-on-used-mesh-raises", f"saving to .{fmt2} a mesh already saved to .{fmt} raised {H['used_raises'][:100]} (a fresh copy saves fine)")
+        elif H.get("used_eq_fresh") is False:
+            add(f"C04/{fmt2}/save-on-used-mesh-differs", f"a mesh already saved to .{fmt} is written to .{fmt2} differently from a fresh copy of the same mesh")
+    # second generation: only where the first generation is right (the rt family owns the first generation)
+    if "gen" in H or "gen_err" in H:
+        rt_case = {k: v for k, v in case.items() if k != "fmt2"}; rt_case["sc"] = "rt"
+        if not _oracle(rt_case):
+            if "gen_err" in H:
+                add(f"C04/{fmt}/second-generation-raises", f"load -> save -> load of a .{fmt} file raised {H['gen_err'][:120]}")
+            else:
+                c1, c2 = H["gen"]
+                exp = dict(c1, E_up=None)      # the loaded object carries the edges implied by its faces: they may be written
+                if c1["C"]: c2 = dict(c2, F=c2["F"][:len(c1["F"])])     # … and the faces implied by its cells (appended after the declared ones)
+                for kind, what in diff_content(exp, c2, fmt, set()):
+                    add(f"C04/{fmt}/{kind}/second-generation", f"loading a .{fmt} file, saving it again and loading that: {what}")
+    return out
 
 
 def _fmt_raw(c, geo=False):
@@ -415,6 +619,9 @@ def _fmt_raw(c, geo=False):
 
 
 def impl_observe(case):
+    if case["sc"] == "hist":
+        H = _run_hist(case)
+        return "hist " + " ".join(f"{k}={H[k]}" for k in ("same_twice", "used_eq_fresh") if k in H) + (" err1" if "err1" in H else "")
     R = _run(case)
     if "save_err" in R:
         return f"save:{R['save_err']} ;; - ;; -"
@@ -442,6 +649,7 @@ def _enc_val(ty, v):
 
 
 def model_request(case):
+    if case["sc"] == "hist": return None      # differential clauses on the implementation only
     R = _run(case)
     fmt = case["fmt"]
     if case["sc"] == "ref":
@@ -515,6 +723,22 @@ def _attr_vals(a):
     return [[IO.fhex(IO.unhex(x) + 0.0) for x in row] for row in a["values"]]
 
 
+def _same_numbers(model_file, written_file):
+    """token files equal up to the spelling of a coordinate: where the model has a number text `x:…`, the file may hold an
+    integer literal of the same value (integer-valued / numpy integer coordinates are printed without a fraction)"""
+    a, b = model_file.split(" "), written_file.split(" ")
+    if len(a) != len(b): return False
+    for x, y in zip(a, b):
+        if x == y: continue
+        if x.startswith("x:") and y.startswith("i:"):
+            try:
+                if IO.unhex(x[2:]) == float(int(y[2:])): continue
+            except (ValueError, OverflowError):
+                return False
+        return False
+    return True
+
+
 def compare(case, model, impl):
     R = _run(case)
     fmt = case["fmt"]
@@ -527,6 +751,8 @@ def compare(case, model, impl):
     if mp[0] == "err": return "model export fails but the implementation saved a file"
     if case["sc"] == "rt":
         mine = IO.show_file(R["toks"])
+        if mp[0] != mine and _same_numbers(mp[0], mine):
+            mine = mp[0]
         if mp[0] != mine:
             a, b = mp[0].split(" | "), mine.split(" | ")
             k = next((i for i in range(min(len(a), len(b))) if a[i] != b[i]), min(len(a), len(b)))
@@ -541,6 +767,8 @@ def compare(case, model, impl):
         if fmt == "stl":
             if IO.soup(mc) != IO.soup(ic): return "triangle soups differ (model import vs implementation load)"
         else:
+            # the orientation of an edge record is not an observable of the property (prepare() sorts every edge)
+            mc = dict(mc, E=[IO.keyify(e) for e in mc["E"]]); ic = dict(ic, E=[IO.keyify(e) for e in ic["E"]])
             for key, nm in (("V", "vertices"), ("E", "edges"), ("F", "faces"), ("C", "cells")):
                 if mc[key] != ic[key]:
                     return f"{nm} read back differ: model {str(mc[key])[:120]} vs implementation {str(ic[key])[:120]}"
@@ -597,9 +825,9 @@ def diff_content(exp, got, fmt, dropped):
         out.append(("vertex", f"vertex coordinates differ (count {len(exp['V'])} vs {len(got['V'])}, first difference at {k}: "
                               f"{exp['V'][k] if k is not None else ''} vs {got['V'][k] if k is not None else ''})"))
     ge = [IO.keyify(e) for e in got["E"]]
-    lo, up = [IO.keyify(e) for e in exp["E"]], [IO.keyify(e) for e in exp.get("E_up", exp["E"])]
+    lo, up = [IO.keyify(e) for e in exp["E"]], [IO.keyify(e) for e in (exp.get("E_up") or exp["E"])]
     if not _msub(lo, ge): out.append(("edge", f"declared edges missing: expected ⊇ {lo[:8]}, got {ge[:8]}"))
-    elif not _msub(ge, up): out.append(("edge", f"edges that are not elements of the mesh (or not expressible) came back: got {ge[:10]}, allowed {up[:10]}"))
+    elif exp.get("E_up", 0) is not None and not _msub(ge, up): out.append(("edge", f"edges that are not elements of the mesh (or not expressible) came back: got {ge[:10]}, allowed {up[:10]}"))
     diffs, extras = [], []
     for key, kof in (("F", IO.kind_of_face), ("C", IO.kind_of_cell)):
         ks = sorted({kof(e) for e in exp[key]} | {kof(e) for e in got[key]})
@@ -634,7 +862,8 @@ def diff_content(exp, got, fmt, dropped):
 def oracle(case):
     """findings of the case; a finding attributed to several element kinds at once (an exception on a mixed mesh) is re-attributed
     to the kinds that reproduce it alone"""
-    out = _oracle(case)
+    if case["sc"] == "hist": return _oracle_hist(case)
+    out = _reattribute_to_attrs(case, _oracle(case))
     res = []
     for f in out:
         parts = f["key"].split("/")
@@ -657,6 +886,28 @@ def oracle(case):
     for f in res:
         if not any(u["key"] == f["key"] for u in uniq): uniq.append(f)
     return uniq
+
+
+def _reattribute_to_attrs(case, out):
+    """a failure of the whole file (exception, invalid file) on a mesh carrying attributes is attributed to the attribute
+    element types that reproduce it alone, when the mesh without attributes is fine"""
+    if case["sc"] != "rt" or not case.get("attrs"): return out
+    res = []
+    for f in out:
+        parts = f["key"].split("/")
+        if parts[2].startswith("attr-") or parts[3] not in ("load-raises", "save-raises", "written"): res.append(f); continue
+        bare = dict(case); bare.pop("attrs")
+        try:
+            if any(g["key"].split("/")[3] == parts[3] for g in _oracle(bare)): res.append(f); continue
+            hit = []
+            for t in sorted({a["type"] for a in case["attrs"]}):
+                sub = dict(case, attrs=[a for a in case["attrs"] if a["type"] == t])
+                if any(g["key"].split("/")[3] == parts[3] for g in _oracle(sub)):
+                    hit.append(dict(f, key=f"C04/{parts[1]}/attr-{t}/{parts[3]}", what=f"with an attribute of element type {t}: " + f["what"]))
+            res += hit if hit else [f]
+        except Exception:  # noqa
+            res.append(f)
+    return res
 
 
 def _oracle(case):
@@ -717,6 +968,8 @@ def _oracle(case):
             add("class", tag, f"loaded object is a {CLASSES[R['cls']]} but its content implies {CLASSES[want]}")
         if fmt != "stl" and R["full"]["V"] != exp["V"]:
             add("vertex", tag, "vertices of the loaded object differ from the saved ones")
+        if "cls_dim" in R and R["cls_dim"] != max(case["dim"], want):
+            add("class", "dim-override", f"load(dim={case['dim']}) returned a {CLASSES[R['cls_dim']]} for content of dimensionality {want}")
     return out
 
 
@@ -731,6 +984,9 @@ def _adv(case):
 
 
 def nontrivial(case, obs):
+    if case["sc"] == "hist":
+        H = _run_hist(case)
+        return "err1" not in H and ("gen" in H or "used_eq_fresh" in H) and bool(case["V"])
     R = _run(case)
     if "save_err" in R or "raw_err" in R or "cls_err" in R: return False
     c = R["raw"]
@@ -738,6 +994,13 @@ def nontrivial(case, obs):
 
 
 def classify(case, obs):
+    if case["sc"] == "hist":
+        H = _run_hist(case)
+        ks = ["sc:hist", f"hist:{case['fmt']}->{case['fmt2']}", f"mesh:{case.get('tag')}", "rep:" + case.get("rep", "float")]
+        if case["ign"]: ks.append("hist-ignore:" + "+".join(case["ign"]))
+        ks += [f"hist-{k}:{H[k]}" for k in ("same_twice", "used_eq_fresh") if k in H]
+        ks += [f"hist-{k}" for k in ("err1", "err1b", "err2", "gen_err", "gen") if k in H]
+        return ks
     R = _run(case)
     ks = [f"fmt:{case['fmt']}", f"sc:{case['sc']}", f"mesh:{case.get('tag')}", f"{case['fmt']}/{case.get('tag')}"]
     if case["sc"] == "rt":
@@ -747,6 +1010,9 @@ def classify(case, obs):
         if case.get("attrs"): ks += ["attr:" + a["type"] + str(a["arity"]) + "@" + a["on"] for a in case["attrs"]]
     else:
         ks.append("style:" + case.get("style", "plain"))
+    if case["sc"] == "rt":
+        ks.append("rep:" + case.get("rep", "float")); ks.append("erep:" + case.get("erep", "list"))
+        if case.get("dim") is not None: ks.append(f"dim-override:{case['dim']}" + (":raises" if "cls_dim_err" in R else ""))
     for k in ("save_err", "raw_err", "cls_err"):
         if k in R: ks.append(f"{k}:{R[k]}")
     if "cls" in R: ks.append("class:" + CLASSES[R["cls"]])
@@ -895,9 +1161,45 @@ def _obj_rows():
         elif not node.orelse: break
         else: raise T.TranslateError("parse_obj_data: trailing else branch")
     src = ast.unparse(fn)
-    for needle in ("toks[1:4]", "for vstr in toks[1:]", "int(toks[1]) - 1, int(toks[2]) - 1", "keyify(v1, v2)"):
+    # (the orientation of an `l` record is normalised by prepare(): keyify here is not required)
+    for needle in ("toks[1:4]", "for vstr in toks[1:]", "int(toks[1]) - 1, int(toks[2]) - 1"):
         if needle not in src: raise T.TranslateError(f"parse_obj_data: expected `{needle}`")
     return rows
+
+
+def _save_guards():
+    """mesh.py save(): the `if "<kw>" in ignore_elements:` guards -> (kw, containers emptied) and HOW they are emptied"""
+    import ast
+    tree, _ = T.load("mouette/mesh/mesh.py")
+    fn = T.find_def(tree, "save")
+    src = ast.unparse(fn)
+    if "raw_mesh = RawMeshData(mesh)" not in src or "write_by_extension(raw_mesh, filename)" not in src:
+        raise T.TranslateError("save: re-wrap `raw_mesh = RawMeshData(mesh)` / `write_by_extension(raw_mesh, filename)` not found")
+    outer = [n for n in fn.body if isinstance(n, ast.If) and ast.unparse(n.test) == "ignore_elements is not None"]
+    if len(outer) != 1 or outer[0].orelse: raise T.TranslateError("save: expected one `if ignore_elements is not None:` block")
+    rows, modes, fresh = [], set(), None
+    for st in outer[0].body:
+        if (isinstance(st, ast.Assign) and len(st.targets) == 1 and isinstance(st.targets[0], ast.Name)
+                and ast.unparse(st.value) == "RawMeshData()"):
+            fresh = st.targets[0].id; continue
+        if not (isinstance(st, ast.If) and not st.orelse and isinstance(st.test, ast.Compare) and isinstance(st.test.left, ast.Constant)
+                and isinstance(st.test.left.value, str) and len(st.test.ops) == 1 and isinstance(st.test.ops[0], ast.In)
+                and ast.unparse(st.test.comparators[0]) == "ignore_elements"):
+            raise T.TranslateError("save: statement in the ignore block is not `if \"kw\" in ignore_elements:` : " + ast.unparse(st)[:80])
+        conts = []
+        for b in st.body:
+            u = ast.unparse(b)
+            if isinstance(b, ast.Assign) and len(b.targets) == 1 and u.startswith("raw_mesh.") and fresh and u == f"raw_mesh.{b.targets[0].attr} = {fresh}.{b.targets[0].attr}":
+                conts.append(b.targets[0].attr); modes.add("replace")
+            elif isinstance(b, ast.Expr) and u.startswith("raw_mesh.") and u.endswith(".clear()") and u.count(".") == 2:
+                conts.append(u.split(".")[1]); modes.add("clearShared")
+            else:
+                raise T.TranslateError("save: statement under an ignore guard not recognised: " + u[:80])
+        rows.append((st.test.left.value, conts))
+    if len(modes) != 1: raise T.TranslateError(f"save: mixed ways of emptying containers {sorted(modes)}")
+    canon = ("edges", "faces", "cells")       # the guards are independent of each other: their order is immaterial
+    rows.sort(key=lambda r: canon.index(r[0]) if r[0] in canon else len(canon))
+    return rows, modes.pop()
 
 
 def _lean_str(x):
@@ -919,6 +1221,17 @@ def translate():
         T.write_generated("C04Tables", body)
         return {"geoTypeRows": rows, "geoByteSize": sizes, "geoToStringSpecial": special, "objRows": orows}
 
+    def site3():
+        rows, mode = _save_guards()
+        body = ("import Mouette.Model.IOTables\nnamespace Mouette.Generated.C04Save\nopen Mouette.IO.Tables\n\n"
+                "/-- `save`: (keyword of ignore_elements, containers of the re-wrapped RawMeshData that are emptied) -/\n"
+                "def ignoreRows : List (String × List String) :=\n  ["
+                + ", ".join(f"({_lean_str(k)}, [" + ", ".join(_lean_str(c) for c in cs) + "])" for k, cs in rows) + "]\n\n"
+                "/-- how they are emptied: fresh empty containers on raw_mesh (`replace`) or `.clear()` on the containers shared with the mesh -/\n"
+                f"def ignoreMode : IgnoreMode := .{mode}\n\nend Mouette.Generated.C04Save\n")
+        T.write_generated("C04Save", body)
+        return {"ignoreRows": rows, "ignoreMode": mode}
+
     def site():
         rows = _medit_rows()
         body = ("import Mouette.Model.IO\nnamespace Mouette.Generated.C04Medit\nopen Mouette.IO\n\n"
@@ -928,7 +1241,8 @@ def translate():
         T.write_generated("C04Medit", body)
         return {"rows": rows}
     return [T.site("mouette/mesh/io/medit.py: import_medit dispatch (keyword, container, arity)", site),
-            T.site("mesh_attributes.py: Attribute.Type.from_string/to_string/byte_size; obj.py: parse_obj_data line-prefix dispatch", site2)]
+            T.site("mesh_attributes.py: Attribute.Type.from_string/to_string/byte_size; obj.py: parse_obj_data line-prefix dispatch", site2),
+            T.site("mouette/mesh/mesh.py: save() ignore_elements guards (keyword, containers, replace vs clear-shared)", site3)]
 
 
 MANIFEST = {
